@@ -65,4 +65,30 @@ AllFamilies == {
   FamH("deep_value_then_more", <<91, 49, 44>>, <<91>>, <<>>, <<93>>, <<44, 123, 125, 93, 10>>),
   Fam("mixed_spaced",       <<91, 32, 123, 32, 34, 97, 34, 32, 58, 32>>, <<110, 117, 108, 108>>, <<32, 125, 32, 93>>, <<32>>)
 }
+
+\* LENGTH families (C03: "never overflows the stack" for every input, not only deep ones): the repeated part is a
+\* whitespace character, a string character, a digit, an array item or an object member; same affine outcomes
+LengthFamilies == {
+  Fam("long_ws_before_value",   <<32>>, <<49>>, <<>>, <<>>),
+  FamH("long_ws_after_value",   <<49>>, <<10>>, <<>>, <<>>, <<>>),
+  FamH("long_ws_then_garbage",  <<91, 49>>, <<9>>, <<120>>, <<>>, <<>>),
+  FamH("long_ws_in_array",      <<91, 49, 44>>, <<32>>, <<50>>, <<13>>, <<93>>),
+  FamH("long_ws_in_object",     <<123>>, <<32>>, <<34, 107, 34>>, <<32>>, <<58, 48, 125>>),
+  FamH("long_string",           <<34>>, <<97>>, <<34>>, <<>>, <<>>),
+  FamH("long_string_escapes",   <<34>>, <<92, 110>>, <<34>>, <<>>, <<>>),
+  FamH("long_string_multibyte", <<91, 34>>, <<233, 128512>>, <<34, 93>>, <<>>, <<>>),
+  FamH("long_string_unclosed",  <<34>>, <<92, 117, 48, 48, 52, 49>>, <<>>, <<>>, <<>>),
+  FamH("long_key",              <<123, 34>>, <<107>>, <<34, 58, 49, 125>>, <<>>, <<>>),
+  FamH("long_integer",          <<49>>, <<48>>, <<>>, <<>>, <<>>),
+  FamH("long_fraction",         <<91, 45, 48, 46>>, <<55>>, <<93>>, <<>>, <<>>),
+  FamH("long_exponent",         <<49, 101>>, <<57>>, <<>>, <<>>, <<32>>),
+  FamH("long_number_then_garbage", <<49, 46>>, <<48>>, <<120>>, <<>>, <<>>),
+  FamH("wide_array",            <<91, 48>>, <<44, 48>>, <<93>>, <<>>, <<>>),
+  FamH("wide_array_of_arrays",  <<91, 91, 93>>, <<44, 91, 93>>, <<93>>, <<>>, <<>>),
+  FamH("wide_array_unclosed",   <<91, 48>>, <<44, 32, 110, 117, 108, 108>>, <<>>, <<>>, <<>>),
+  FamH("wide_object",           <<123, 34, 97, 34, 58, 48>>, <<44, 34, 97, 34, 58, 48>>, <<125>>, <<>>, <<>>),
+  FamH("wide_object_then_error", <<123, 34, 97, 34, 58, 123, 125>>, <<44, 34, 98, 34, 58, 123, 125>>, <<44, 125>>, <<>>, <<>>),
+  FamH("many_literals",         <<91, 116, 114, 117, 101>>, <<44, 102, 97, 108, 115, 101, 44, 110, 117, 108, 108>>, <<93>>, <<>>, <<>>)
+}
+AllAndLength == AllFamilies \cup LengthFamilies
 =============================================================================
